@@ -222,10 +222,16 @@ class MetadataGenerator:
         list_types: List[DList] = []
         dict_types: List[DDict] = []
         other_types: List[MetaData] = []
-        for item in t.types:
+        items = list(t.types)
+        while items:
+            item = items.pop(0)
             if isinstance(item, DOptional):
                 item = item.type
                 other_types.append(Null)
+            if isinstance(item, DUnion):
+                # Optional[Union[...]] member: its members are members of this union and should be categorized as well
+                items = list(item.types) + items
+                continue
             if isinstance(item, dict):
                 types_to_merge.append(item)
             elif item in self.str_types_registry or item is str:
